@@ -53,6 +53,13 @@ func contentsOf(i int) []recordtypes.Content {
 	switch i {
 	case 0:
 		return []recordtypes.Content{{Digest: "d1", DigestAlgo: "sha256", URI: "u", Meta: "m"}}
+	case 2:
+		// a large record (four contents of 4 KiB of meta data each): "exactly the submitted contents" has no size bound
+		var cs []recordtypes.Content
+		for k := 0; k < 4; k++ {
+			cs = append(cs, recordtypes.Content{Digest: fmt.Sprintf("big%d", k), DigestAlgo: "sha256", URI: "u", Meta: strings.Repeat(string(rune('a'+k)), 4096)})
+		}
+		return cs
 	default:
 		// (one digest carries the line break it was pasted with, one algorithm a trailing blank: "exactly the
 		// submitted contents" includes them)
@@ -180,6 +187,7 @@ func (d *Driver) Enabled(e *mc.Env, s *mc.State) []mc.Op {
 	// records in different blocks then differ in nothing but the module's own counter
 	ops = append(ops, mc.Op{Name: "create-notx(c1,A)", Data: opData{content: 0, creator: "A", copies: 1, noTx: true}})
 	if d.mined {
+		ops = append(ops, mc.Op{Name: "create(c3-large,A)", Data: opData{content: 2, creator: "A", copies: 1}})
 		ops = append(ops, mc.Op{Name: "create-with-id-00..(c1,A)", Data: opData{content: 0, creator: "A", copies: 1, mine: true}})
 		ops = append(ops, mc.Op{Name: "create-with-id-00..(c2,B)", Data: opData{content: 1, creator: "B", copies: 1, mine: true}})
 	}
@@ -436,7 +444,7 @@ func Parts() []mc.Part {
 		mc.ExplorePart("search-near-counter-wrap", NewNearWrap, 5, 6, true, "as search; the record counter starts at 2^32-3"),
 		// a history may contain a restart of the chain from its own exported genesis: what was created must still be
 		// there afterwards (a module refusing its own export leaves a chain that cannot come back at all)
-		mc.ExplorePart("search-ids-with-leading-zero-byte", newMined, 4, 5, true, "as search, plus creations whose transaction is picked so that the returned id begins with a zero byte"),
+		mc.ExplorePart("search-ids-with-leading-zero-byte", newMined, 4, 5, true, "as search, plus creations whose transaction is picked so that the returned id begins with a zero byte, and a record of 16 KiB"),
 		mc.ExplorePart("search-restarting", restarting, 5, 6, true, "as search, plus restart-from-genesis as an operation"),
 		surface,
 	}
